@@ -34,7 +34,7 @@ try:
     meta["demo_with_patch"] = {"rc": r.returncode, "tail": r.stdout.strip()[-300:]}
     meta["checks"] = {}
     for c in checks:
-        r = sh(f"VERIF_REPO={wt} ./check {c} --tier {tier}", cwd="/verif")
+        r = sh(f"VERIF_EVIDENCE_DIR=/verif/scratch/evidence_scratch VERIF_REPO={wt} ./check {c} --tier {tier}", cwd="/verif")
         tags = [l.strip()[4:] for l in r.stdout.splitlines() if l.startswith("  tag=")]
         meta["checks"][c] = {"tier": tier, "rc": r.returncode, "tags": tags[:5]}
 finally:
